@@ -98,6 +98,10 @@ def main():
     bsz = section(meta, r"pub struct BlockSize\(u32\);", "BlockSize", 400)
     items.append(("BLOCKSIZE_MAX", rust_int(find(bsz, r"const MAX: u32 = ([^;]+);", "BlockSize::MAX").group(1)), "BLOCKSIZE_MAX"))
     items.append(("MAX_POINTS", rust_int(find(meta, r"pub const MAX_POINTS: usize = ([^;]+);", "SeekTable::MAX_POINTS").group(1)), "MAX_POINTS"))
+    # SeekTable::to_writer refuses a defined point that carries the placeholder's mark (Meta.seektable_ok models the check)
+    stw = section(meta, r"impl ToBitStream for SeekTable \{", "SeekTable::to_writer", 1600)
+    find(stw, r"point\.sample_offset\(\) == Some\(u64::MAX\) => Err\(Error::InvalidSeekTablePoint\)", "SeekTable::to_writer: defined point with u64::MAX is refused")
+    items.append(("U64_MAX", 2 ** 64 - 1, "U64_MAX"))
     items.append(("MAX_FRAME_SIZE", rust_int(find(meta, r"pub const MAX_FRAME_SIZE: u32 = ([^;]+);", "Streaminfo::MAX_FRAME_SIZE").group(1)), "MAX_FRAME_SIZE"))
     items.append(("STREAMINFO_SIZE", rust_int(find(meta, r"const SIZE: BlockSize = BlockSize\((0x[0-9a-fA-F]+)\);", "Streaminfo::SIZE").group(1)), "34"))
     items.append(("HEADER_SIZE", rust_int(find(meta, r"const SIZE: BlockSize = BlockSize\((\(1 \+ 7 \+ 24\) / 8)\);", "BlockHeader::SIZE").group(1)), "HEADER_SIZE"))
